@@ -19,7 +19,7 @@ PROP = 'C05'
 LEVEL = 'fault_enumeration'
 BATCH = 300
 TIERS = {
-    'quick': {'runs': 60000, 'budget': 45},
+    'quick': {'runs': 600000, 'budget': 30},
     'thorough': {'runs': 5_000_000, 'budget': 420},
 }
 RULE = ('seeded runs: (chunk structure: sizes/hex case/leading zeros/extensions/last-chunk spelling/trailers, B, '
